@@ -104,6 +104,9 @@ impl<T> SocksRequest<T> {
 
         // request
         let version = socket.read_u8().await.context("read version")?;
+        if version != SOCKS_VER_5 {
+            bail!("bad version in socks5 request: {}", version)
+        }
         let cmd = socket.read_u8().await.context("read cmd")?;
         let _rsv = socket.read_u8().await.context("read")?;
         let atype = socket.read_u8().await.context("read addr type")?;
